@@ -360,6 +360,21 @@ class PostgresQueue(Queue):
         # Invalidate size cache
         self._size_cache = None
 
+    def has_pending_message_for_stage(self, stage_id: str) -> bool:
+        """Check if there's already a pending message that targets a specific stage."""
+        pool = self._get_pool()
+        with pool.connection() as conn:
+            with conn.cursor() as cur:
+                cur.execute(
+                    f"""
+                    SELECT 1 FROM {self.table_name}
+                    WHERE payload ->> 'stage_id' = %s
+                    LIMIT 1
+                    """,
+                    (stage_id,),
+                )
+                return cur.fetchone() is not None
+
     def has_pending_message_for_task(self, task_id: str) -> bool:
         """Check if there's already a pending message for a specific task.
 
